@@ -85,6 +85,10 @@ def handle (toks : List String) : String :=
     match floatTok? stat, parseFloatList? qq, parseFloatList? cdf with
     | some stat, some qq, some cdf => fmtO (interp stat qq cdf)
     | _, _, _ => "bad-op"
+  | ["cvmpg", n, stat] =>
+    match n.toNat?, floatTok? stat with
+    | some n, some stat => fmtO (cvmPvalue n stat)
+    | _, _ => "bad-op"
   | ["cvmidx", n, sizes] =>
     match n.toNat?, parseNatList? sizes with
     | some n, some sizes => match closestIdx n sizes with | some i => s!"some {i}" | none => "none"
